@@ -21,10 +21,11 @@ accesses not ordered by happens-before.
 * `all_sites_guarded`  — the regenerated table is disciplined (kernel evaluation of `Disciplined`).
 * `fun_race_free`      — hence no execution of any client program of these types has a data race.
 
-`fun_race_free` carries the suffix-free name only when `FunGen.LockFacts.exempted` is empty; while
-entry points are exempted as recorded open findings it is a statement about the client programs
-that do not use them (`Conforms` has no events for exempted entries/sites) — the theorem
-`exempted_listed` pins the list so that the claim text cannot silently drift from the table.
+`fun_race_free` is the full statement only while `FunGen.LockFacts.exempted` is empty. An entry
+point or site exempted as a recorded open finding (known-findings.jsonl) is left out of the table,
+i.e. the theorem is then about the client programs that do not use it. `no_exemptions` pins the
+list: the day a finding is exempted it stops to hold, and `fun_race_free` has to be renamed
+`fun_race_free_partial` with the exempted keys spelled out here.
 -/
 
 namespace FunModel.C13
@@ -54,6 +55,9 @@ entry points of the table has a data race. -/
 theorem fun_race_free (F : Facts) (hF : F ∈ lockFacts) (tr : Trace) (wf : WF tr) (hc : Conforms F tr) :
     ¬ Race tr :=
   lockset_race_free F (List.all_eq_true.mp all_sites_guarded F hF) tr wf hc
+
+/-- nothing is exempted: `fun_race_free` speaks about every entry point the extractor found -/
+theorem no_exemptions : exempted = [] := rfl
 
 /-! ## Non-vacuity -/
 
